@@ -315,6 +315,18 @@ def job_dr(ctx, iq, ia):
                 else:
                     ctx.seen(('dr', fname, qn, an, rate, dt))
                 ctx.outcome(('dr', fname, tuple(np.round(q, 9))))
+            # history on one object: a call with an explicit dt, then a call WITHOUT dt -> the second call uses the configured Dt
+            if rate > 0.0:
+                for fname, mk, is_conj in (('Madgwick', lambda: Madgwick(Dt=0.02), False), ('Mahony', lambda: Mahony(Dt=0.02), False), ('AQUA', lambda: AQUA(Dt=0.02), True)):
+                    obj = mk()
+                    qq = conj(q0) if is_conj else q0.copy()
+                    obj.updateIMU(qq.copy(), w.copy(), Z.copy(), dt=dt)                 # explicit dt (differs from the configured 0.02 on most grid points)
+                    got = _arr(obj.updateIMU(qq.copy(), w.copy(), Z.copy()))           # no dt: configured Dt
+                    if is_conj and got.shape == (4,):
+                        got = conj(got)
+                    dd = ri.sdist(got, ri.first_order(q0, w, 0.02)) if got.shape == (4,) else np.inf
+                    ctx.expect(dd <= TOL_DR, f'{fname}.updateIMU without dt uses the configured Dt, also after a call with an explicit dt', key, dd, 0.0, TOL_DR)
+                    ctx.cls('dr:dt-history')
             # batch constructors, null accelerometer, explicit Dt and explicit frequency
             G = np.tile(w, (NB, 1)); Zb = np.zeros((NB, 3))
             builders = [
@@ -381,6 +393,13 @@ def job_angvel(ctx, iq, ia):
                         key, 'angvel.const*dt/2')
             ctx.track('angvel.abs_err*dt/2', float(dW.max()) * dt / 2.0)
             ctx.cls('angvel:constant')
+            # the same sequence stored scalar-last (order='S'): same rates
+            WSl = _arr(QuaternionArray(np.roll(S, -1, axis=1).copy(), order='S').angular_velocities(float(dt)))
+            okS = WSl.shape == Wexp.shape and WSl.dtype.kind == 'f'
+            dWS0 = np.abs(WSl - Wexp).max(axis=1) if okS else np.full(N, np.inf)
+            dWS0[~np.isfinite(dWS0)] = np.inf
+            _judge_rows(ctx, dWS0, np.full(N, tolw), "angular_velocities(dt) of a scalar-last (order='S') constant-rate sequence = (2/dt) sin(|w|dt/2) axis",
+                        key, 'angvel.const[S]*dt/2')
             # switching axis half-way
             half = NS // 2
             S1 = ri.exact_seq(q0, w, dt, half)
